@@ -22,7 +22,7 @@ RULE = ('mounts (5) x .Trash (absent, sticky dir, non-sticky dir, symlink->stick
         '.Trash-uid (absent, dir, file, symlink to a dir, dangling symlink) x file location (home vol, other vol, nested vol, via cross-volume symlinked parent, '
         'symlink-to-other-volume-dir spelled with trailing slash) x env (XDG set, unset, empty, HOME unset, both unset, $HOME/.local a link to another volume, XDG_DATA_HOME below such a link) x option '
         '(-, --trash-dir same vol, other vol, symlinked to other vol, below a linked parent) x fallback (off, flag, env, both) x uid (0,1000); quick tier = '
-        'sub-lattice (uid 0, 3 mount layouts, 4 options, fallback off/both/flag+env=0, 5 environments, 3 .Trash-uid states); non-trivial = a candidate was examined; distinct = '
+        'sub-lattice (uid 0, 3 mount layouts, 4 options, fallback off/both/flag+env=0, 5 environments, 3 .Trash-uid states + the other two .Trash-uid states without options); non-trivial = a candidate was examined; distinct = '
         'R2 verdict class x outcome class x location x env x option x fallback')
 MOUNTS = {'root-only': ['/'], 'v1': ['/', '/mnt/v1'], 'home': ['/', '/home'],
           'home+v1+v2': ['/', '/home', '/mnt/v1', '/mnt/v2'], 'nested': ['/', '/mnt/v1', '/mnt/v1/inner']}
@@ -61,6 +61,17 @@ def cases(tier):
                                             continue
                                         out.append({'m': m, 'top': top, 'tu': tu, 'alt': alt, 'loc': loc, 'env': e,
                                                     'opt': o, 'fb': fb, 'uid': uid})
+    if q:
+        # the other two states of .Trash-uid (an existing directory - e.g. left by an earlier run -, a link to a directory) on a sub-lattice
+        for m in ('v1', 'home', 'nested'):
+            for e in ('unset', 'xdg'):
+                for loc in LOCS:
+                    for alt in ('dir', 'link-dir'):
+                        for tu in (0, 1):
+                            for top in TOPS:
+                                if tu and top in ('absent', 'file'):
+                                    continue
+                                out.append({'m': m, 'top': top, 'tu': tu, 'alt': alt, 'loc': loc, 'env': e, 'opt': '-', 'fb': 'off', 'uid': 0})
     return out
 
 
